@@ -24,7 +24,7 @@ Drew(r) == \E j \in 1..Len(r.calls) : r.calls[j].u = 0 /\ r.calls[j].k = "flush"
 TabInCalls(r) == \E j \in 1..Len(r.calls) : r.calls[j].u = 0 /\ HasTab(r.calls[j].c)
 
 InitOf(r) ==
-    LET S0 == [SInit(r.cfg.w, r.cfg.h, r.cfg.multi, r.cfg.mphid, r.cfg.align) EXCEPT !.pty = r.cfg.pty]
+    LET S0 == [SInit(r.cfg.w, r.cfg.h, r.cfg.multi, r.cfg.mphid, r.cfg.align) EXCEPT !.pty = r.cfg.pty, !.unlim = r.cfg.multi /\ r.cfg.hz = 0 /\ ~r.cfg.pty /\ ~r.cfg.mphid]
         T0 == Calls(TInit(r.cfg.w, r.cfg.h), r.calls)
         base == SelectSeq(r.calls, LAMBDA x : x.u = 1 /\ x.k = "line")
     IN [S |-> [S0 EXCEPT !.above = [j \in 1..Len(base) |-> LogItem(base[j].c)]], T |-> T0]
@@ -90,6 +90,9 @@ Step(S0, T0, r) ==
         [S |-> quietS, T |-> T1, m |-> NoM,
          rule |-> IF LibCalls(r) # <<>> THEN "QuietOK"
                   ELSE IF res.forced THEN "ForcedOK"
+                  (* a target without refresh rate has no limiter that could skip a redraw request: if nothing was painted, the *)
+                  (* terminal must already show what the paint would have produced (an unchanged frame may be left alone)      *)
+                  ELSE IF r.op \in RequestOps /\ Visible(S0, r.b) /\ Visible(S1, r.b) /\ Unlimited(S1, r.b) /\ Matches(S1, T1, res.log, FALSE) = {} THEN "UnlimitedOK"
                   ELSE IF ~FinalOK(S0, S1, r) THEN "FinalOK"
                   ELSE IF ~RetOK(S1, r) THEN "RetOK"
                   ELSE IF ~GetOK(S1, r) THEN "GetOK"
